@@ -88,6 +88,20 @@ def _mission_file():
     return os.path.join(_MISSION_DIR[0], "mission.txt")
 
 
+_REL_NAME = "_gsverif_mission.txt"
+
+
+def _staged_relative():
+    import atexit
+    _mission_file()
+    decoy = os.path.join(os.path.dirname(os.path.abspath(__file__)), _REL_NAME)
+    if not os.path.exists(decoy):
+        with open(decoy, "w") as f:
+            f.write("999.0,999.0,999.0\n")
+        atexit.register(lambda: os.path.exists(decoy) and os.unlink(decoy))
+    return os.path.join(_MISSION_DIR[0], _REL_NAME)
+
+
 def run_mission_impl(case):
     proto = Plain()
     proto.provider = Provider()
@@ -107,11 +121,24 @@ def run_mission_impl(case):
                 # the same mission handed over as a waypoint file (one "x,y,z" line per waypoint); ONE path per
                 # process, rewritten for every mission, as a planner that keeps updating "mission.txt" does
                 path = _mission_file()
+                if case.get("file_rel"):
+                    # named by a path relative to the working directory, while a file of the same name with another mission
+                    # lies next to the source file of the protocol class: the file that was named is the one in the
+                    # working directory
+                    path = _staged_relative()
                 with open(path, "w") as f:
                     fmt = {"e": "%.17e,%.17e,%.17e\n", "sp": " %r , %r ,%r \n", "plus": "%+.17g,%+.17g,%+.17g\n"}.get(case.get("file_fmt"), "%r,%r,%r\n")
                     for q in op[1]:
                         f.write(fmt % (float(q[0]), float(q[1]), float(q[2])))
-                plugin.start_mission_with_waypoint_file(path)
+                if case.get("file_rel"):
+                    here = os.getcwd()
+                    os.chdir(_MISSION_DIR[0])
+                    try:
+                        plugin.start_mission_with_waypoint_file(os.path.basename(path))
+                    finally:
+                        os.chdir(here)
+                else:
+                    plugin.start_mission_with_waypoint_file(path)
             elif op[0] == "start":
                 plugin.start_mission([tuple(p) for p in op[1]])
             elif op[0] == "stop":
